@@ -66,6 +66,9 @@ func expressible(c KeyCase) bool {
 			return !unicode.IsUpper(k) && keyspec.AltPrefixable(byte(k))
 		case vaxis.ModCtrl:
 			return k >= 'a' && k <= 'z' && k != 'h' && k != 'i' && k != 'm'
+		case vaxis.ModShift | vaxis.ModAlt:
+			// Alt+Shift+letter is ESC + the capital letter
+			return k >= 'a' && k <= 'z' && c.Shifted != 0 && keyspec.AltPrefixable(byte(unicode.ToUpper(k)))
 		}
 	}
 	return false
@@ -213,7 +216,13 @@ func runKey(r *rig, c KeyCase) string {
 	if !isKey {
 		return fmt.Sprintf("key %+v was written as %q, which the input pipeline reads as %T", c.event(), out, evs[0])
 	}
-	if !got.Matches(k, mods) {
+	ok = got.Matches(k, mods)
+	if !ok && mods == vaxis.ModShift|vaxis.ModAlt {
+		// the legacy encoding carries Shift in the letter's case: ESC C is
+		// Alt+C, which is the chord Alt+Shift+c
+		ok = got.Matches(unicode.ToUpper(k), vaxis.ModAlt)
+	}
+	if !ok {
 		return fmt.Sprintf("key %+v was written as %q, which the input pipeline reads as %+v: it does not match the original chord (%q, mods %03b)", c.event(), out, got, k, c.Mods)
 	}
 	return ""
@@ -248,6 +257,11 @@ func allKeyCases() []KeyCase {
 					shifted = unicode.ToUpper(k)
 					text = string(shifted)
 				}
+			}
+			if m == 3 && unicode.IsLower(k) {
+				// Shift+Alt: a host with the kitty protocol reports the
+				// shifted code, no text
+				shifted = unicode.ToUpper(k)
 			}
 			if unicode.IsUpper(k) {
 				continue // chords are named by the unshifted key
